@@ -27,6 +27,13 @@ enum Content {
     SyntaxError,
     MissingRequire,
     InvalidUtf8,
+    /// invalid bytes inside a string literal / a comment: valid Lua after a lossy decoding
+    InvalidUtf8InString,
+    Latin1InComment,
+    /// "", "\n", "  \t\n": an empty chunk is a valid program
+    Blank(u8),
+    CommentOnly,
+    Semicolon,
     NotLua,
 }
 
@@ -45,6 +52,13 @@ impl Content {
                 b"local m = require(\"./does_not_exist\")\nreturn m\n".to_vec()
             }
             Content::InvalidUtf8 => vec![b'r', b'e', b't', b'u', b'r', b'n', b' ', 0xff, 0xfe, b'\n'],
+            Content::InvalidUtf8InString => b"local s = \"ab\xff\xfecd\"\nreturn s\n".to_vec(),
+            Content::Latin1InComment => b"-- caf\xe9 au lait\nreturn 1\n".to_vec(),
+            Content::Blank(0) => Vec::new(),
+            Content::Blank(1) => b"\n".to_vec(),
+            Content::Blank(_) => b"  \t\n".to_vec(),
+            Content::CommentOnly => b"-- nothing but a comment\n--[[ and\n a block ]]\n".to_vec(),
+            Content::Semicolon => b";\n".to_vec(),
             Content::NotLua => b"just some text\n".to_vec(),
         }
     }
@@ -187,7 +201,47 @@ fn generate(seed: u64, id: u64, disk: bool) -> Scenario {
     };
     // ---- additions drawn from a second generator, so that the scenarios above keep their ids
     let mut rng2 = Rng::new(seed.wrapping_mul(7919).wrapping_add(id).wrapping_add(0xABCDEF));
-    let (input, mut output, mut shape) = (input, output, shape);
+    let (mut input, mut output, mut shape) = (input, output, shape);
+    // quiet sources: empty, blank, comment-only, a lone semicolon
+    const QUIET: [&str; 5] = ["empty.lua", "blank.luau", "ws.lua", "only_comment.lua", "semi.lua"];
+    let mut quiet_paths = Vec::new();
+    for _ in 0..rng2.below(3) {
+        let dir = *rng2.pick(&DIRS);
+        let name = *rng2.pick(&QUIET);
+        let path = if dir.is_empty() {
+            format!("src/{}", name)
+        } else {
+            format!("src/{}/{}", dir, name)
+        };
+        let content = match name {
+            "only_comment.lua" => Content::CommentOnly,
+            "semi.lua" => Content::Semicolon,
+            _ => Content::Blank(rng2.below(3) as u8),
+        };
+        if !files.contains_key(&path) {
+            files.insert(path.clone(), content);
+            quiet_paths.push(path);
+        }
+    }
+    if disk && rng2.chance(1, 3) {
+        let dir = *rng2.pick(&DIRS);
+        let (name, content) = if rng2.chance(1, 2) {
+            ("bytes_in_string.lua", Content::InvalidUtf8InString)
+        } else {
+            ("latin1_comment.luau", Content::Latin1InComment)
+        };
+        let path = if dir.is_empty() {
+            format!("src/{}", name)
+        } else {
+            format!("src/{}/{}", dir, name)
+        };
+        files.entry(path.clone()).or_insert(content);
+        quiet_paths.push(path);
+    }
+    if shape.starts_with("file") && !quiet_paths.is_empty() && rng2.chance(1, 2) {
+        // the single input file is one of them
+        input = rng2.pick(&quiet_paths).clone();
+    }
     if shape.starts_with("file") {
         if rng2.chance(1, 3) && output.is_some() {
             // single file into an EXISTING directory whose name contains a dot
@@ -226,9 +280,12 @@ fn generate(seed: u64, id: u64, disk: bool) -> Scenario {
     // which files are expected to fail
     for (path, content) in &files {
         match content {
-            Content::SyntaxError | Content::MissingRequire | Content::InvalidUtf8 => {
-                faulty.push(path.clone())
-            }
+            Content::SyntaxError
+            | Content::MissingRequire
+            | Content::InvalidUtf8
+            | Content::InvalidUtf8InString
+            | Content::Latin1InComment
+            | Content::Semicolon => faulty.push(path.clone()),
             _ => {}
         }
     }
